@@ -11,4 +11,46 @@ theorem skel_OAuthProxy_IsAllowedRequest_ok : skel_OAuthProxy_IsAllowedRequest =
   "p.isAllowedRoute",
   "p.isTrustedIP"] : List String) := rfl
 
+theorem skel_isAllowedMethod_ok : skel_isAllowedMethod = ([
+  "return route.method == \"\" || req.Method == route.method"] : List String) := rfl
+
+theorem skel_isAllowedPath_ok : skel_isAllowedPath = ([
+  "route.pathRegex.MatchString",
+  "if route.negate",
+  "return !matches",
+  "return matches"] : List String) := rfl
+
+theorem skel_OAuthProxy_isAllowedRoute_ok : skel_OAuthProxy_isAllowedRoute = ([
+  "if isAllowedMethod(req, route) && isAllowedPath(req, route)",
+  "isAllowedMethod",
+  "isAllowedPath",
+  "return true",
+  "return false"] : List String) := rfl
+
+theorem skel_OAuthProxy_isTrustedIP_ok : skel_OAuthProxy_isTrustedIP = ([
+  "if p.trustedIPs == nil && req.RemoteAddr != \"@\"",
+  "return false",
+  "ip.GetClientIP",
+  "if err != nil",
+  "return false",
+  "if remoteAddr == nil",
+  "return false",
+  "return p.trustedIPs.Has(remoteAddr)",
+  "p.trustedIPs.Has"] : List String) := rfl
+
+theorem skel_GetRequestPath_ok : skel_GetRequestPath = ([
+  "if err == nil",
+  "url.ParseRequestURI",
+  "return parsedURL.Path",
+  "if idx != -1",
+  "strings.Index",
+  "return uri[:idx]",
+  "return uri"] : List String) := rfl
+
+theorem skel_GetRequestURI_ok : skel_GetRequestURI = ([
+  "req.Header.Get",
+  "if !IsProxied(req) || uri == \"\"",
+  "IsProxied",
+  "return uri"] : List String) := rfl
+
 end O2P.Expect.C15
